@@ -8,6 +8,10 @@ CHECKS = {
              text="Exhaustive TLC check that the trie algorithm equals the declarative suffix semantics and is monotone for every insertion sequence within the bounded universe; every distinct model state's insertion history is replayed through the real file loader and matcher, and all recorded probe results (also for seeded random lists with arbitrary octets, 1..63-octet labels) are checked by TLC against the specification's Matches/Readable.",
              note="Bounded label universe for the exhaustive part; random lists are sampling; regexp entries limited to anchored literals; Go regexp engine trusted.",
              ref="DESIGN.md section 4 C11"),
+ "C15": dict(technique="TLA+ token-bucket model per masked subnet (TLC exhaustive: budget bound, isolation) + TLC-generated arrival histories replayed into the real ClientLimiter with virtual time + TLC trace validation of every decision",
+             text="Exhaustive TLC check of the budget bound and isolation on the bucket model (5 addresses in 3 subnets incl. IPv4-mapped, all arrival interleavings within bounds, with and without the global bucket); one arrival history per distinct model state plus seeded random histories are replayed into the real limiter.ClientLimiter under 8 configuration shapes (explicit, omitted and out-of-range masks, omitted burst) and TLC checks each recorded decision for equality with the model, the window budget on the admitted costs and that only the caller's subnet is charged.",
+             note="Virtual-time replay (AllowN takes now as an argument); float arithmetic of x/time/rate kept exact by construction of the stimuli; live-listener clauses are checked on router traces.",
+             ref="DESIGN.md section 4 C15"),
 }
 
 PENDING_REASON = "check under construction in this round (see DESIGN.md section 4); not claimed until its machinery is committed and passes on the unchanged tree"
